@@ -16,7 +16,20 @@ import client
 import model
 from client import Server, uri_for, diag_keys
 
-WORDS = ["tset", "wrold", "qzxvb", "mispeled", "gardden", "Tset", "TSET", "caféish", "o’clocker", "zxürich", "naïvetés", "Qzxvb", "x86ish", "日本語", "wrold’s"]
+WORDS = ["tset", "wrold", "qzxvb", "mispeled", "gardden", "Tset", "TSET", "caféish", "o’clocker", "zxürich", "naïvetés", "Qzxvb", "x86ish", "日本語", "wrold’s",
+         # structured words: every letter an even number of times, anagram pairs, one-letter difference
+         "tuktuk", "qzqz", "zazaza", "dlorw", "tets", "wrolds", "qq"]
+
+
+def big_seed_words(rng, n):
+    """Many distinct words made mostly of two- and three-byte characters, so that in a file of a
+    few dozen KiB multi-byte characters straddle every power-of-two buffer boundary."""
+    alphabet = "üöäéèñßçøå"
+    out = []
+    for i in range(n):
+        k = rng.randint(3, 9)
+        out.append("z" * (i % 2) + "".join(rng.choice(alphabet) for _ in range(k)) + "%dx" % i + rng.choice(["日本", "ü", "é", ""]))
+    return out
 
 
 def fold(w):
@@ -42,6 +55,7 @@ class Hist:
         self.server = None
         # sometimes a dictionary file already exists on disk
         self.preseed = rng.random() < 0.4
+        self.big = self.preseed and rng.random() < 0.5
 
     def finding(self, sig, detail):
         self.findings.append({"prop": "C07", "sig": sig, "count": 1, "wlen": len(self.trace), "witness": {"history": list(self.trace)}, "detail": detail})
@@ -50,11 +64,11 @@ class Hist:
         self.server = Server(self.srvdir)
         if self.preseed and not self.user and not os.path.exists(self.server.user_dict):
             os.makedirs(os.path.dirname(self.server.user_dict), exist_ok=True)
-            pre = ["preseeded", "alreadyhere"]
+            pre = ["preseeded", "alreadyhere"] + (big_seed_words(self.rng, self.rng.randint(600, 2500)) if self.big else [])
             with open(self.server.user_dict, "w", encoding="utf-8") as f:
                 f.write("".join(w + "\n" for w in pre))
             self.user = list(pre)
-            self.trace.append({"op": "dictionary file on disk", "words": pre})
+            self.trace.append({"op": "dictionary file on disk", "words": pre[:4], "n_words": len(pre)})
         self.server.initialize()
         for k in self.text:
             self.server.open(uri_for(self.paths[k]), self.text[k], self.lang[k])
@@ -156,6 +170,8 @@ class Hist:
             elif r < 0.85:
                 k = rng.choice(["A", "B"])
                 t = model.make_text(rng, WORDS)
+                if self.big and len(self.user) > 10:
+                    t += " " + " ".join(rng.sample(self.user[2:], 6)) + "."
                 self.trace.append({"op": "lint", "doc": k, "text": t})
                 self.set_text(k, t)
             else:
